@@ -1489,12 +1489,14 @@ def gen_pth_prog(rng):
         m = rng.randrange(2); v = rng.randrange(2)
         if kind == 'static':
             mkind[m] = 1
+        # one lock per variable: either the mutex (taken with lock or with a trylock loop) or the spin lock, never a mix
+        style = 'SPIN' if (kind != 'static' and rng.random() < 0.25) else 'LOCK'
         for t in range(2, NT + 1):
             b = []
             if kind == 'once':
                 b.append(('ONCE', 0, 0, 0))
             for _ in range(rng.randint(1, 2)):
-                b += locked_add(m, v, rng.randint(1, 5), 'LOCK' if kind == 'static' else rng.choice(('LOCK', 'LOCK', 'TLOCK', 'SPIN')))
+                b += locked_add(m, v, rng.randint(1, 5), style if style == 'SPIN' else rng.choice(('LOCK', 'TLOCK') if kind != 'static' else ('LOCK',)))
                 if rng.random() < 0.3:
                     b.append(rng.choice((('YIELD', 0, 0, 0), ('SELF', 0, 0, 0), ('SLEEP', rng.choice((0, 1, 200, 1500)), 0, 0))))
             th[t] = b + ends(t)
@@ -1502,7 +1504,9 @@ def gen_pth_prog(rng):
         if kind == 'once':
             main.append(('ONCE', 0, 0, 0))
         if rng.random() < 0.5:
-            main += locked_add(m, v, 7, 'LOCK')
+            main += locked_add(m, v, 7, style)
+        if rng.random() < 0.03:
+            main += locked_add(m, v, 1, 'SPIN' if style == 'LOCK' else 'LOCK')      # deliberately the wrong lock: TLC must reject the program
         order = list(range(2, NT + 1)); rng.shuffle(order)
         main += [('JOIN', t, 0, 0) for t in order] + [('READ', v, 0, 0)]
     elif kind == 'handoff':
